@@ -5,6 +5,8 @@ Helper lemmas for property C16 (cardinal / Lagrange part): bridges from the list
 -/
 import Mathlib.LinearAlgebra.Lagrange
 import Mathlib.Tactic
+import Mathlib.Data.List.GetD
+import Mathlib.Analysis.SpecialFunctions.Trigonometric.Basic
 import WallGoVerif.Model.Poly
 
 namespace Lemmas.PolyCardinal
@@ -52,6 +54,519 @@ theorem node_injOn {xs : List ℝ} (h : xs.Nodup) :
 theorem node_eq_iff {xs : List ℝ} (h : xs.Nodup) {i j : ℕ} (hi : i < xs.length)
     (hj : j < xs.length) : node xs i = node xs j ↔ i = j :=
   (node_injOn h).eq_iff (by simpa using hi) (by simpa using hj)
+
+/-! ## `cardinal` -/
+
+theorem cardinal_eq_prod (xs : List ℝ) (j : ℕ) (x : ℝ) :
+    cardinal (0 : ℝ) 1 xs j x =
+      ∏ k ∈ range xs.length,
+        if node xs j = node xs k then 1 else (x - node xs k) / (node xs j - node xs k) := by
+  unfold cardinal
+  simp only [prod_eq]
+  rw [prod_map_eq_prod_range]
+  refine Finset.prod_congr rfl fun k _ => ?_
+  simp only [beq_iff_eq, sub_eq_zero, node]
+
+/-- the Lagrange basis polynomial on the node list `xs` (index set `range xs.length`). -/
+abbrev basisPoly (xs : List ℝ) (j : ℕ) : ℝ[X] := Lagrange.basis (range xs.length) (node xs) j
+
+theorem eval_basisDivisor (a b x : ℝ) :
+    (Lagrange.basisDivisor a b).eval x = (x - b) / (a - b) := by
+  simp [Lagrange.basisDivisor, div_eq_inv_mul]
+
+theorem cardinal_eq_lagrange {xs : List ℝ} (h : xs.Nodup) {j : ℕ} (hj : j < xs.length) (x : ℝ) :
+    cardinal (0 : ℝ) 1 xs j x = (basisPoly xs j).eval x := by
+  rw [cardinal_eq_prod, basisPoly, Lagrange.basis, eval_prod,
+    ← Finset.mul_prod_erase _ _ (mem_range.mpr hj), if_pos rfl, one_mul]
+  refine Finset.prod_congr rfl fun k hk => ?_
+  rw [mem_erase, mem_range] at hk
+  rw [if_neg, eval_basisDivisor]
+  rw [node_eq_iff h hj hk.2]
+  exact fun e => hk.1 e.symm
+
+theorem cardinal_at_node {xs : List ℝ} (h : xs.Nodup) {i j : ℕ} (hi : i < xs.length)
+    (hj : j < xs.length) : cardinal (0 : ℝ) 1 xs j (node xs i) = if i = j then 1 else 0 := by
+  rw [cardinal_eq_lagrange h hj]
+  split_ifs with e
+  · subst e
+    exact Lagrange.eval_basis_self (node_injOn h) (mem_range.mpr hi)
+  · exact Lagrange.eval_basis_of_ne (fun e' => e e'.symm) (mem_range.mpr hi)
+
+/-! ## list sums as `Finset` sums -/
+
+theorem zipIdx_map_sum_aux (c : List ℝ) (f : ℝ → ℕ → ℝ) (s : ℕ) :
+    ((c.zipIdx s).map (fun q => f q.1 q.2)).sum = ∑ j ∈ range c.length, f (c.getD j 0) (s + j) := by
+  induction c generalizing s with
+  | nil => simp
+  | cons a t ih =>
+    rw [List.zipIdx_cons, List.map_cons, List.sum_cons, ih, List.length_cons,
+      Finset.sum_range_succ', add_comm]
+    congr 1
+    · refine Finset.sum_congr rfl fun j _ => ?_
+      simp [add_assoc, add_comm 1 j]
+
+theorem zipIdx_map_sum (c : List ℝ) (f : ℝ → ℕ → ℝ) :
+    ((c.zipIdx).map (fun q => f q.1 q.2)).sum = ∑ j ∈ range c.length, f (c.getD j 0) j := by
+  simpa using zipIdx_map_sum_aux c f 0
+
+theorem zipWith_mul_sum (r c : List ℝ) :
+    (List.zipWith (· * ·) r c).sum =
+      ∑ j ∈ range (min r.length c.length), r.getD j 0 * c.getD j 0 := by
+  induction r generalizing c with
+  | nil => simp
+  | cons a t ih =>
+    cases c with
+    | nil => simp
+    | cons b u =>
+      rw [List.zipWith_cons_cons, List.sum_cons, ih, List.length_cons, List.length_cons,
+        Nat.succ_min_succ, Finset.sum_range_succ', add_comm]
+      simp
+
+/-! ## kept rows -/
+
+theorem keptRange_snd_le (d : Dir) (e : Bool) (n : ℕ) : (keptRange d e n).2 ≤ n := by
+  unfold keptRange
+  cases e <;> cases d <;> simp
+
+theorem kept_length (d : Dir) (e : Bool) (xs : List ℝ) :
+    (kept d e xs).length = (keptRange d e xs.length).2 - (keptRange d e xs.length).1 := by
+  have := keptRange_snd_le d e xs.length
+  simp only [kept, List.length_take, List.length_drop]
+  omega
+
+theorem kept_getD (d : Dir) (e : Bool) (xs : List ℝ) {j : ℕ}
+    (hj : j < (keptRange d e xs.length).2 - (keptRange d e xs.length).1) :
+    (kept d e xs).getD j 0 = node xs ((keptRange d e xs.length).1 + j) := by
+  have := keptRange_snd_le d e xs.length
+  simp only [kept, node, List.getD_eq_getElem?_getD]
+  rw [List.getElem?_take_of_lt hj, List.getElem?_drop]
+
+theorem kept_map_getD (d : Dir) (e : Bool) (xs : List ℝ) (f : ℝ → ℝ) {j : ℕ}
+    (hj : j < (keptRange d e xs.length).2 - (keptRange d e xs.length).1) :
+    ((kept d e xs).map f).getD j 0 = f (node xs ((keptRange d e xs.length).1 + j)) := by
+  rw [← kept_getD d e xs hj, List.getD_eq_getElem?_getD, List.getD_eq_getElem?_getD,
+    List.getElem?_map]
+  have : j < (kept d e xs).length := by rw [kept_length]; exact hj
+  simp [List.getElem?_eq_getElem this]
+
+/-- the hypothesis "the sampled function vanishes at the dropped nodes". -/
+def VanishesOffKept (d : Dir) (e : Bool) (xs : List ℝ) (g : ℝ → ℝ) : Prop :=
+  ∀ k < xs.length, (k < (keptRange d e xs.length).1 ∨ (keptRange d e xs.length).2 ≤ k) →
+    g (node xs k) = 0
+
+theorem kept_sum (d : Dir) (e : Bool) (xs : List ℝ) (g : ℝ → ℝ) (G : ℕ → ℝ)
+    (hv : VanishesOffKept d e xs g) :
+    ∑ j ∈ range ((kept d e xs).map g).length,
+        ((kept d e xs).map g).getD j 0 * G ((keptRange d e xs.length).1 + j) =
+      ∑ k ∈ range xs.length, g (node xs k) * G k := by
+  have hle := keptRange_snd_le d e xs.length
+  rw [List.length_map, kept_length]
+  set lo := (keptRange d e xs.length).1
+  set hi := (keptRange d e xs.length).2
+  have h1 : ∑ j ∈ range (hi - lo), ((kept d e xs).map g).getD j 0 * G (lo + j) =
+      ∑ j ∈ range (hi - lo), g (node xs (lo + j)) * G (lo + j) :=
+    Finset.sum_congr rfl fun j hj => by rw [kept_map_getD d e xs g (mem_range.mp hj)]
+  rw [h1, ← Finset.sum_Ico_eq_sum_range (fun k => g (node xs k) * G k)]
+  refine Finset.sum_subset ?_ ?_
+  · intro k hk
+    rw [mem_Ico] at hk
+    exact mem_range.mpr (by omega)
+  · intro k hk hk'
+    rw [mem_range] at hk
+    rw [mem_Ico] at hk'
+    rw [hv k hk (by omega), zero_mul]
+
+/-! ## interpolation -/
+
+theorem degree_lt_of_natDegree_lt {p : ℝ[X]} {n : ℕ} (hp : p.natDegree < n) :
+    p.degree < ((range n).card : WithBot ℕ) := by
+  rw [card_range]
+  exact lt_of_le_of_lt degree_le_natDegree (by exact_mod_cast hp)
+
+theorem eq_sum_basis {xs : List ℝ} (h : xs.Nodup) {p : ℝ[X]} (hp : p.natDegree < xs.length) :
+    p = ∑ k ∈ range xs.length, C (p.eval (node xs k)) * basisPoly xs k := by
+  have := Lagrange.eq_interpolate (node_injOn h) (degree_lt_of_natDegree_lt hp)
+  rwa [Lagrange.interpolate_apply] at this
+
+theorem eval_eq_sum_basis {xs : List ℝ} (h : xs.Nodup) {p : ℝ[X]} (hp : p.natDegree < xs.length)
+    (x : ℝ) : p.eval x = ∑ k ∈ range xs.length, p.eval (node xs k) * (basisPoly xs k).eval x := by
+  conv_lhs => rw [eq_sum_basis h hp]
+  simp [eval_finsetSum]
+
+theorem eval_derivative_eq_sum_basis {xs : List ℝ} (h : xs.Nodup) {p : ℝ[X]}
+    (hp : p.natDegree < xs.length) (x : ℝ) :
+    (derivative p).eval x =
+      ∑ k ∈ range xs.length, p.eval (node xs k) * (derivative (basisPoly xs k)).eval x := by
+  conv_lhs => rw [eq_sum_basis h hp]
+  simp [eval_finsetSum]
+
+/-! ## `evalCardinal` -/
+
+theorem evalCardinal_eq_sum (d : Dir) (e : Bool) (xs c : List ℝ) (x : ℝ) :
+    evalCardinal (0 : ℝ) 1 d e xs c x =
+      ∑ j ∈ range c.length, c.getD j 0 * cardinal (0 : ℝ) 1 xs ((keptRange d e xs.length).1 + j) x := by
+  unfold evalCardinal
+  simp only [sum_eq]
+  exact zipIdx_map_sum c (fun cj j => cj * cardinal (0 : ℝ) 1 xs ((keptRange d e xs.length).1 + j) x)
+
+theorem evalCardinal_exact {xs : List ℝ} (h : xs.Nodup) (d : Dir) (e : Bool) {p : ℝ[X]}
+    (hp : p.natDegree < xs.length) (hv : VanishesOffKept d e xs (fun t => p.eval t)) (x : ℝ) :
+    evalCardinal (0 : ℝ) 1 d e xs ((kept d e xs).map (fun t => p.eval t)) x = p.eval x := by
+  rw [evalCardinal_eq_sum, eval_eq_sum_basis h hp,
+    ← kept_sum d e xs (fun t => p.eval t) (fun k => (basisPoly xs k).eval x) hv]
+  refine Finset.sum_congr rfl fun j hj => ?_
+  rw [cardinal_eq_lagrange h]
+  have := keptRange_snd_le d e xs.length
+  rw [mem_range, List.length_map, kept_length] at hj
+  omega
+
+/-- `_cardinalMatrix` is the identity: the expansion with coefficients `c` takes the value `c[i]`
+at the `i`-th kept node. -/
+theorem evalCardinal_at_kept_node {xs : List ℝ} (h : xs.Nodup) (d : Dir) (e : Bool) {c : List ℝ}
+    (hc : c.length = (keptRange d e xs.length).2 - (keptRange d e xs.length).1) {i : ℕ}
+    (hi : i < c.length) :
+    evalCardinal (0 : ℝ) 1 d e xs c (node xs ((keptRange d e xs.length).1 + i)) = c.getD i 0 := by
+  have hle := keptRange_snd_le d e xs.length
+  rw [evalCardinal_eq_sum, Finset.sum_eq_single_of_mem i (mem_range.mpr hi)]
+  · rw [cardinal_at_node h (by omega) (by omega), if_pos rfl, mul_one]
+  · intro j hj hji
+    rw [mem_range] at hj
+    rw [cardinal_at_node h (by omega) (by omega), if_neg (by omega), mul_zero]
+
+/-- the `Fin`-indexed Lagrange basis on the nodes `xs[i]` is the `range`-indexed one. -/
+theorem basis_fin_eq (xs : List ℝ) {j : ℕ} (hj : j < xs.length) :
+    Lagrange.basis (Finset.univ : Finset (Fin xs.length)) (fun i => xs[i]) ⟨j, hj⟩ =
+      basisPoly xs j := by
+  unfold basisPoly Lagrange.basis
+  have : (range xs.length).erase j =
+      ((Finset.univ : Finset (Fin xs.length)).erase ⟨j, hj⟩).map Fin.valEmbedding := by
+    ext k
+    simp only [mem_erase, mem_range, mem_map, mem_univ, and_true, Fin.valEmbedding_apply]
+    constructor
+    · rintro ⟨h1, h2⟩
+      exact ⟨⟨k, h2⟩, fun e => h1 (congrArg Fin.val e), rfl⟩
+    · rintro ⟨q, hq, rfl⟩
+      exact ⟨fun e => hq (Fin.ext e), q.2⟩
+  rw [this, Finset.prod_map]
+  refine Finset.prod_congr rfl fun k _ => ?_
+  simp [node, List.getD_eq_getElem]
+
+/-! ## derivative of the Lagrange basis at the nodes -/
+
+theorem derivative_basisDivisor (a b : ℝ) :
+    derivative (Lagrange.basisDivisor a b) = C (a - b)⁻¹ := by
+  simp [Lagrange.basisDivisor]
+
+section
+variable {ι : Type*} [DecidableEq ι] {s : Finset ι} {v : ι → ℝ} {i j : ι}
+
+theorem eval_derivative_basis_self (hv : Set.InjOn v s) (hi : i ∈ s) :
+    (derivative (Lagrange.basis s v i)).eval (v i) = ∑ k ∈ s.erase i, (v i - v k)⁻¹ := by
+  rw [Lagrange.basis, derivative_prod_finset, eval_finsetSum]
+  refine Finset.sum_congr rfl fun k hk => ?_
+  rw [eval_mul, derivative_basisDivisor, eval_C, eval_prod, Finset.prod_eq_one, one_mul]
+  intro l hl
+  have hl' := mem_erase.mp (mem_of_mem_erase hl)
+  exact Lagrange.eval_basisDivisor_left_of_ne (fun e => hl'.1 (hv hl'.2 hi e.symm))
+
+theorem eval_derivative_basis_of_ne (hij : i ≠ j) (hj : j ∈ s) :
+    (derivative (Lagrange.basis s v i)).eval (v j) =
+      (∏ l ∈ (s.erase i).erase j, (v j - v l) / (v i - v l)) * (v i - v j)⁻¹ := by
+  rw [Lagrange.basis, derivative_prod_finset, eval_finsetSum]
+  have hj' : j ∈ s.erase i := mem_erase.mpr ⟨hij.symm, hj⟩
+  rw [Finset.sum_eq_single_of_mem j hj']
+  · rw [eval_mul, derivative_basisDivisor, eval_C, eval_prod]
+    congr 1
+    exact Finset.prod_congr rfl fun l _ => eval_basisDivisor _ _ _
+  · intro k hk hkj
+    rw [eval_mul, eval_prod, Finset.prod_eq_zero (i := j), zero_mul]
+    · exact mem_erase.mpr ⟨hkj.symm, hj'⟩
+    · exact Lagrange.eval_basisDivisor_right
+
+end
+
+/-! ## `cardinalDerivEntry` -/
+
+theorem cardinalDerivEntry_eq {xs : List ℝ} (h : xs.Nodup) {i j : ℕ} (hi : i < xs.length)
+    (hj : j < xs.length) :
+    cardinalDerivEntry (0 : ℝ) 1 xs i j = (derivative (basisPoly xs i)).eval (node xs j) := by
+  unfold cardinalDerivEntry
+  simp only [sum_eq, prod_eq, beq_iff_eq, sub_eq_zero]
+  have hi' := mem_range.mpr hi
+  have hj' := mem_range.mpr hj
+  change (if node xs i = node xs j then _ else _) = _
+  split_ifs with e
+  · rw [node_eq_iff h hi hj] at e
+    subst e
+    rw [basisPoly, eval_derivative_basis_self (node_injOn h) hi',
+      sum_map_eq_sum_range xs (fun xk => if xs.getD i 0 = xk then 0 else 1 / (xs.getD i 0 - xk)),
+      ← Finset.add_sum_erase _ _ hi', if_pos rfl, zero_add]
+    refine Finset.sum_congr rfl fun k hk => ?_
+    rw [mem_erase, mem_range] at hk
+    rw [if_neg, one_div]
+    change ¬ (node xs i = node xs k)
+    rw [node_eq_iff h hi hk.2]
+    exact fun e => hk.1 e.symm
+  · have hij : i ≠ j := fun e' => e (e' ▸ rfl)
+    rw [basisPoly, eval_derivative_basis_of_ne hij hj', div_eq_mul_inv]
+    congr 1
+    rw [prod_map_eq_prod_range xs (fun xk =>
+        if (xs.getD i 0 - xk) * (xs.getD j 0 - xk) = 0 then 1 else (xs.getD j 0 - xk) / (xs.getD i 0 - xk)),
+      ← Finset.mul_prod_erase _ _ hi', if_pos (by simp), one_mul,
+      ← Finset.mul_prod_erase _ _ (mem_erase.mpr ⟨hij.symm, hj'⟩), if_pos (by simp), one_mul]
+    refine Finset.prod_congr rfl fun k hk => ?_
+    rw [mem_erase, mem_erase, mem_range] at hk
+    rw [if_neg]
+    rw [mul_eq_zero, sub_eq_zero, sub_eq_zero]
+    change ¬ (node xs i = node xs k ∨ node xs j = node xs k)
+    rw [node_eq_iff h hi hk.2.2, node_eq_iff h hj hk.2.2]
+    rintro (e | e)
+    · exact hk.2.1 e.symm
+    · exact hk.1 e.symm
+
+/-! ## `cardinalDeriv` and `mulVec` -/
+
+theorem range_map_getD (m : ℕ) (f : ℕ → ℝ) {j : ℕ} (hj : j < m) :
+    ((List.range m).map f).getD j 0 = f j := by
+  rw [List.getD_eq_getElem _ _ (by simpa using hj)]
+  simp
+
+theorem mulVec_length (D : List (List ℝ)) (c : List ℝ) : (mulVec (0 : ℝ) D c).length = D.length := by
+  simp [mulVec]
+
+theorem cardinalDeriv_length (d : Dir) (e : Bool) (xs : List ℝ) :
+    (cardinalDeriv (0 : ℝ) 1 d e xs).length = xs.length := by
+  simp [cardinalDeriv]
+
+/-- row `a` of `cardinalDeriv · c` as a `Finset` sum. -/
+theorem mulVec_cardinalDeriv_getElem (d : Dir) (e : Bool) (xs c : List ℝ)
+    (hc : c.length = (keptRange d e xs.length).2 - (keptRange d e xs.length).1) {a : ℕ}
+    (ha : a < (mulVec (0 : ℝ) (cardinalDeriv (0 : ℝ) 1 d e xs) c).length) :
+    (mulVec (0 : ℝ) (cardinalDeriv (0 : ℝ) 1 d e xs) c)[a] =
+      ∑ j ∈ range c.length,
+        c.getD j 0 * cardinalDerivEntry (0 : ℝ) 1 xs ((keptRange d e xs.length).1 + j) a := by
+  simp only [mulVec, cardinalDeriv, List.getElem_map, List.getElem_range, sum_eq]
+  rw [zipWith_mul_sum, List.length_map, List.length_range, ← hc, min_self]
+  refine Finset.sum_congr rfl fun j hj => ?_
+  rw [range_map_getD _ _ (mem_range.mp hj), mul_comm]
+
+theorem cardinalDeriv_exact {xs : List ℝ} (h : xs.Nodup) (d : Dir) (e : Bool) {p : ℝ[X]}
+    (hp : p.natDegree < xs.length) (hv : VanishesOffKept d e xs (fun t => p.eval t)) :
+    mulVec (0 : ℝ) (cardinalDeriv (0 : ℝ) 1 d e xs) ((kept d e xs).map (fun t => p.eval t)) =
+      xs.map (fun t => (derivative p).eval t) := by
+  have hle := keptRange_snd_le d e xs.length
+  refine List.ext_getElem (by rw [mulVec_length, cardinalDeriv_length, List.length_map]) ?_
+  intro a ha _
+  have ha' : a < xs.length := by rwa [mulVec_length, cardinalDeriv_length] at ha
+  rw [mulVec_cardinalDeriv_getElem d e xs _ (by rw [List.length_map, kept_length]), List.getElem_map,
+    eval_derivative_eq_sum_basis h hp,
+    ← kept_sum d e xs (fun t => p.eval t)
+      (fun k => (derivative (basisPoly xs k)).eval xs[a]) hv]
+  refine Finset.sum_congr rfl fun j hj => ?_
+  rw [mem_range, List.length_map, kept_length] at hj
+  rw [cardinalDerivEntry_eq h (by omega) ha', node, List.getD_eq_getElem _ _ ha']
+
+/-! ## linearity -/
+
+theorem zipWith_getD (f : ℝ → ℝ → ℝ) {c₁ c₂ : List ℝ} (hlen : c₁.length = c₂.length) {j : ℕ}
+    (hj : j < c₁.length) :
+    (List.zipWith f c₁ c₂).getD j 0 = f (c₁.getD j 0) (c₂.getD j 0) := by
+  rw [List.getD_eq_getElem _ _ (by simpa [← hlen] using hj), List.getD_eq_getElem _ _ hj,
+    List.getD_eq_getElem _ _ (hlen ▸ hj), List.getElem_zipWith]
+
+theorem evalCardinal_axpy (d : Dir) (e : Bool) (xs : List ℝ) (a : ℝ) {c₁ c₂ : List ℝ}
+    (hlen : c₁.length = c₂.length) (x : ℝ) :
+    evalCardinal (0 : ℝ) 1 d e xs (List.zipWith (fun u w => u + a * w) c₁ c₂) x =
+      evalCardinal (0 : ℝ) 1 d e xs c₁ x + a * evalCardinal (0 : ℝ) 1 d e xs c₂ x := by
+  simp only [evalCardinal_eq_sum, List.length_zipWith, ← hlen, min_self]
+  rw [Finset.mul_sum, ← Finset.sum_add_distrib]
+  refine Finset.sum_congr rfl fun j hj => ?_
+  rw [zipWith_getD _ hlen (mem_range.mp hj)]
+  ring
+
+theorem evalCardinal_smul (d : Dir) (e : Bool) (xs : List ℝ) (a : ℝ) (c : List ℝ) (x : ℝ) :
+    evalCardinal (0 : ℝ) 1 d e xs (c.map (fun u => a * u)) x =
+      a * evalCardinal (0 : ℝ) 1 d e xs c x := by
+  simp only [evalCardinal_eq_sum, List.length_map]
+  rw [Finset.mul_sum]
+  refine Finset.sum_congr rfl fun j hj => ?_
+  have : (c.map (fun u => a * u)).getD j 0 = a * c.getD j 0 := by
+    have := List.getD_map c (0 : ℝ) (n := j) (fun u => a * u)
+    simpa using this
+  rw [this]
+  ring
+
+theorem row_axpy (row : List ℝ) (a : ℝ) {c₁ c₂ : List ℝ} (hlen : c₁.length = c₂.length) :
+    (List.zipWith (· * ·) row (List.zipWith (fun u w => u + a * w) c₁ c₂)).sum =
+      (List.zipWith (· * ·) row c₁).sum + a * (List.zipWith (· * ·) row c₂).sum := by
+  simp only [zipWith_mul_sum, List.length_zipWith, ← hlen, min_self]
+  rw [Finset.mul_sum, ← Finset.sum_add_distrib]
+  refine Finset.sum_congr rfl fun j hj => ?_
+  rw [zipWith_getD _ hlen (lt_of_lt_of_le (mem_range.mp hj) (min_le_right _ _))]
+  ring
+
+theorem mulVec_axpy (D : List (List ℝ)) (a : ℝ) {c₁ c₂ : List ℝ} (hlen : c₁.length = c₂.length) :
+    mulVec (0 : ℝ) D (List.zipWith (fun u w => u + a * w) c₁ c₂) =
+      List.zipWith (fun u w => u + a * w) (mulVec (0 : ℝ) D c₁) (mulVec (0 : ℝ) D c₂) := by
+  refine List.ext_getElem (by simp [mulVec]) ?_
+  intro i h1 h2
+  simp only [mulVec, List.getElem_map, List.getElem_zipWith, sum_eq]
+  exact row_axpy _ a hlen
+
+theorem mulVec_smul (D : List (List ℝ)) (a : ℝ) (c : List ℝ) :
+    mulVec (0 : ℝ) D (c.map (fun u => a * u)) = (mulVec (0 : ℝ) D c).map (fun u => a * u) := by
+  refine List.ext_getElem (by simp [mulVec]) ?_
+  intro i h1 h2
+  simp only [mulVec, List.getElem_map, sum_eq, zipWith_mul_sum, List.length_map]
+  rw [Finset.mul_sum]
+  refine Finset.sum_congr rfl fun j hj => ?_
+  have : (c.map (fun u => a * u)).getD j 0 = a * c.getD j 0 := by
+    have := List.getD_map c (0 : ℝ) (n := j) (fun u => a * u)
+    simpa using this
+  rw [this]
+  ring
+
+/-! ## axis-wise application on a rank-2 row-major tensor -/
+
+theorem flatMap_range_map_length (m n : ℕ) (f : ℕ → ℕ → ℝ) :
+    ((List.range m).flatMap (fun i => (List.range n).map (f i))).length = m * n := by
+  induction m with
+  | zero => simp
+  | succ m ih =>
+    rw [List.range_succ, List.flatMap_append, List.length_append, ih]
+    simp [Nat.succ_mul]
+
+theorem flatMap_range_map_getD (m n : ℕ) (f : ℕ → ℕ → ℝ) {i k : ℕ} (hi : i < m) (hk : k < n) :
+    ((List.range m).flatMap (fun i => (List.range n).map (f i))).getD (i * n + k) 0 = f i k := by
+  induction m with
+  | zero => omega
+  | succ m ih =>
+    rw [List.range_succ, List.flatMap_append]
+    by_cases him : i < m
+    · have : i * n + k < m * n := by
+        calc i * n + k < i * n + n := by omega
+          _ = (i + 1) * n := by ring
+          _ ≤ m * n := Nat.mul_le_mul_right _ him
+      rw [List.getD_append _ _ _ _ (by rw [flatMap_range_map_length]; exact this)]
+      exact ih him
+    · have him' : i = m := by omega
+      subst him'
+      rw [List.getD_append_right _ _ _ _ (by rw [flatMap_range_map_length]; omega),
+        flatMap_range_map_length]
+      simp only [List.flatMap_cons, List.flatMap_nil, List.append_nil]
+      rw [show i * n + k - i * n = k by omega]
+      exact range_map_getD n (f i) hk
+
+theorem range_map_sum (a : ℕ) (g : ℕ → ℝ) : ((List.range a).map g).sum = ∑ j ∈ range a, g j := by
+  induction a with
+  | zero => simp
+  | succ a ih => rw [List.range_succ, List.map_append, List.sum_append, ih, Finset.sum_range_succ]; simp
+
+theorem applyAxis_axis0 (A : List (List ℝ)) (a b : ℕ) (t : List ℝ) :
+    applyAxis (0 : ℝ) A [a, b] 0 t =
+      (List.range A.length).flatMap (fun i => (List.range b).map (fun k =>
+        ∑ j ∈ range a, (A.getD i []).getD j 0 * t.getD (j * b + k) 0)) := by
+  simp only [applyAxis, sum_eq, range_map_sum]
+  simp only [List.take_zero, List.foldl_nil, List.range_one, List.flatMap_cons, List.flatMap_nil,
+    List.append_nil, List.getD_cons_zero, zero_add, List.drop_succ_cons, List.drop_zero,
+    List.foldl_cons, one_mul, zero_mul]
+
+theorem applyAxis_axis1 (B : List (List ℝ)) (a b : ℕ) (t : List ℝ) :
+    applyAxis (0 : ℝ) B [a, b] 1 t =
+      (List.range a).flatMap (fun o => (List.range B.length).map (fun i =>
+        ∑ j ∈ range b, (B.getD i []).getD j 0 * t.getD (o * b + j) 0)) := by
+  simp only [applyAxis, sum_eq, range_map_sum]
+  simp only [List.take_succ_cons, List.take_zero, List.foldl_cons, List.foldl_nil, one_mul,
+    List.getD_cons_succ, List.getD_cons_zero, List.drop_succ_cons, List.drop_zero, List.range_one,
+    List.map_cons, List.map_nil, mul_one, add_zero]
+  simp only [← List.map_eq_flatMap]
+
+theorem applyAxis_axis0_length (A : List (List ℝ)) (a b : ℕ) (t : List ℝ) :
+    (applyAxis (0 : ℝ) A [a, b] 0 t).length = A.length * b := by
+  rw [applyAxis_axis0, flatMap_range_map_length]
+
+theorem applyAxis_axis1_length (B : List (List ℝ)) (a b : ℕ) (t : List ℝ) :
+    (applyAxis (0 : ℝ) B [a, b] 1 t).length = a * B.length := by
+  rw [applyAxis_axis1, flatMap_range_map_length]
+
+/-- entry `(i, k)` of `A` applied along axis 0 of the row-major `a × b` tensor `t`:
+`∑ⱼ A[i][j] · t[j][k]`. -/
+theorem applyAxis_axis0_getD (A : List (List ℝ)) (a b : ℕ) (t : List ℝ) {i k : ℕ}
+    (hi : i < A.length) (hk : k < b) :
+    (applyAxis (0 : ℝ) A [a, b] 0 t).getD (i * b + k) 0 =
+      ∑ j ∈ range a, (A.getD i []).getD j 0 * t.getD (j * b + k) 0 := by
+  rw [applyAxis_axis0]
+  exact flatMap_range_map_getD A.length b
+    (fun i k => ∑ j ∈ range a, (A.getD i []).getD j 0 * t.getD (j * b + k) 0) hi hk
+
+/-- entry `(o, i)` of `B` applied along axis 1 of the row-major `a × b` tensor `t`:
+`∑ⱼ B[i][j] · t[o][j]`. -/
+theorem applyAxis_axis1_getD (B : List (List ℝ)) (a b : ℕ) (t : List ℝ) {o i : ℕ}
+    (ho : o < a) (hi : i < B.length) :
+    (applyAxis (0 : ℝ) B [a, b] 1 t).getD (o * B.length + i) 0 =
+      ∑ j ∈ range b, (B.getD i []).getD j 0 * t.getD (o * b + j) 0 := by
+  rw [applyAxis_axis1]
+  exact flatMap_range_map_getD a B.length
+    (fun o i => ∑ j ∈ range b, (B.getD i []).getD j 0 * t.getD (o * b + j) 0) ho hi
+
+/-- applying `A` along axis 0 and `B` along axis 1 of a rank-2 row-major tensor commute. -/
+theorem applyAxis_comm (A B : List (List ℝ)) (a b : ℕ) (t : List ℝ) :
+    applyAxis (0 : ℝ) B [A.length, b] 1 (applyAxis (0 : ℝ) A [a, b] 0 t) =
+      applyAxis (0 : ℝ) A [a, B.length] 0 (applyAxis (0 : ℝ) B [a, b] 1 t) := by
+  refine List.ext_getElem (by rw [applyAxis_axis1_length, applyAxis_axis0_length]) ?_
+  intro idx h1 h2
+  rw [applyAxis_axis1_length] at h1
+  have hB : 0 < B.length := by
+    rcases Nat.eq_zero_or_pos B.length with h0 | h0
+    · rw [h0] at h1; omega
+    · exact h0
+  have hi : idx / B.length < A.length := by
+    rw [Nat.div_lt_iff_lt_mul hB]; exact h1
+  have hk : idx % B.length < B.length := Nat.mod_lt _ hB
+  have hidx : idx = idx / B.length * B.length + idx % B.length := by
+    rw [mul_comm]; exact (Nat.div_add_mod idx B.length).symm
+  rw [← List.getD_eq_getElem _ 0, ← List.getD_eq_getElem _ 0]
+  generalize idx / B.length = i at hi hidx
+  generalize idx % B.length = k at hk hidx
+  subst hidx
+  rw [applyAxis_axis1_getD _ _ _ _ hi hk, applyAxis_axis0_getD _ _ _ _ hi hk]
+  have e1 : ∀ l ∈ range b, (B.getD k []).getD l 0 * (applyAxis (0 : ℝ) A [a, b] 0 t).getD (i * b + l) 0 =
+      ∑ j ∈ range a, (B.getD k []).getD l 0 * ((A.getD i []).getD j 0 * t.getD (j * b + l) 0) := by
+    intro l hl
+    rw [applyAxis_axis0_getD _ _ _ _ hi (mem_range.mp hl), Finset.mul_sum]
+  have e2 : ∀ j ∈ range a, (A.getD i []).getD j 0 * (applyAxis (0 : ℝ) B [a, b] 1 t).getD (j * B.length + k) 0 =
+      ∑ l ∈ range b, (B.getD k []).getD l 0 * ((A.getD i []).getD j 0 * t.getD (j * b + l) 0) := by
+    intro j hj
+    rw [applyAxis_axis1_getD _ _ _ _ (mem_range.mp hj) hk, Finset.mul_sum]
+    exact Finset.sum_congr rfl fun l _ => by ring
+  rw [Finset.sum_congr rfl e1, Finset.sum_congr rfl e2, Finset.sum_comm]
+
+/-! ## the Gauss–Lobatto nodes are distinct -/
+
+/-- the Chebyshev–Gauss–Lobatto nodes `-cos(jπ/n)`, `j = 0..n`, are strictly increasing. -/
+theorem lobatto_pairwise_lt {n : ℕ} (hn : 1 ≤ n) :
+    ((List.range (n + 1)).map (fun j : ℕ => -Real.cos (j * Real.pi / n))).Pairwise (· < ·) := by
+  rw [List.pairwise_map]
+  refine List.Pairwise.imp_of_mem ?_ (List.pairwise_lt_range (n := n + 1))
+  intro j k hj hk hjk
+  rw [List.mem_range] at hj hk
+  rw [neg_lt_neg_iff]
+  have hn' : (0 : ℝ) < n := by exact_mod_cast hn
+  have hpi := Real.pi_pos
+  have key : ∀ m : ℕ, m < n + 1 → (m * Real.pi / n) ∈ Set.Icc 0 Real.pi := by
+    intro m hm
+    have hm' : (m : ℝ) ≤ n := by exact_mod_cast Nat.lt_succ_iff.mp hm
+    constructor
+    · positivity
+    · rw [div_le_iff₀ hn']
+      nlinarith
+  refine Real.strictAntiOn_cos (key j hj) (key k hk) ?_
+  have : (j : ℝ) < k := by exact_mod_cast hjk
+  gcongr
+
+theorem lobatto_nodup {n : ℕ} (hn : 1 ≤ n) :
+    ((List.range (n + 1)).map (fun j : ℕ => -Real.cos (j * Real.pi / n))).Nodup :=
+  (lobatto_pairwise_lt hn).imp ne_of_lt
 
 end
 
